@@ -427,15 +427,20 @@ func callsRLE(u *Universe, f *ssa.Function) bool {
 	return res
 }
 
-func checkC18(c *Ctx) {
+// runFG walks every page-header consumer of the runtime. over=false: the refusal obligations of C18; over=true: the
+// converse obligation of C04 (no refusal for a level encoding the column does not decode).
+func runFG(c *Ctx, over bool) []*ssa.Function {
 	r, u := c.R, c.U
-	r.Explanation = "Decides 'rejected with an error' for every unsupported page type, value encoding, level encoding (only where the column decodes such levels) and codec, at every page of every chunk: (FG) in every function that reads a page header from the source, on every CFG path from the header read to the point where the page counts as consumed (next header read or successful return) and before any dereference of DataPageHeader, the header's Type, DataPageHeader, Encoding and — on paths that decode definition/repetition levels — the level encodings have been compared with the one supported value, the other branch returning an error; pageData's codec dispatch returns an error for every other codec; (EP) every error of those functions reaches NewParquetReader's return or the sticky Error(). 'Does not panic' for other malformed content is not decided."
+	rule := "FG"
+	if over {
+		rule = "FG-over"
+	}
 	g := newFG(c)
 	_, t, ops := srcAnalysis(c)
 	hdrFn := u.Func(rtPath, "PageHeader")
 	if hdrFn == nil {
 		r.failf("parquet.PageHeader not found")
-		return
+		return nil
 	}
 	// header consumers: functions of the runtime that obtain a page header from the source — by calling PageHeader or a
 	// helper that does and returns the header — and go on to interpret a payload (hand the header, or the source, to a
@@ -495,12 +500,12 @@ func checkC18(c *Ctx) {
 					continue
 				}
 				consumers = append(consumers, f)
-				r.count("FG/header-consumers", 1)
+				r.count(rule+"/header-consumers", 1)
 				viol, iters := g.exploreInlined(hdrFn, f, call)
 				key := u.FnName(f)
 				pos := u.Pos(call.Pos())
 				if iters == 0 {
-					r.undecided("FG", key, pos, "no path from the header read to a page-consumed point was found")
+					r.undecided(rule, key, pos, "no path from the header read to a page-consumed point was found")
 					continue
 				}
 				bad := map[string]fgFinding{}
@@ -508,6 +513,16 @@ func checkC18(c *Ctx) {
 					if _, dup := bad[v.key]; !dup {
 						bad[v.key] = v
 					}
+				}
+				if over {
+					for _, n := range []string{"def-level-encoding", "rep-level-encoding"} {
+						if v, isBad := bad["over:"+n]; isBad {
+							r.bad("FG-over", key+" "+n, v.pos, v.why)
+						} else {
+							r.ok("FG-over", key+" "+n, pos, "a page is refused for its level encoding only on paths that decode such levels")
+						}
+					}
+					continue
 				}
 				for _, s := range g.sels {
 					if v, isBad := bad[s.name]; isBad {
@@ -518,6 +533,20 @@ func checkC18(c *Ctx) {
 				}
 			}
 		}
+	}
+	if consumers == nil {
+		consumers = []*ssa.Function{}
+	}
+	return consumers
+}
+
+func checkC18(c *Ctx) {
+	r, u := c.R, c.U
+	r.Explanation = "Decides 'rejected with an error' for every unsupported page type, value encoding, level encoding (only where the column decodes such levels) and codec, at every page of every chunk: (FG) in every function that reads a page header from the source, on every CFG path from the header read to the point where the page counts as consumed (next header read or successful return) and before any dereference of DataPageHeader, the header's Type, DataPageHeader, Encoding and — on paths that decode definition/repetition levels — the level encodings have been compared with the one supported value, the other branch returning an error; pageData's codec dispatch returns an error for every other codec; (EP) every error of those functions reaches NewParquetReader's return or the sticky Error(). 'Does not panic' for other malformed content is not decided."
+	consumers := runFG(c, false)
+	_, _, ops := srcAnalysis(c)
+	if consumers == nil {
+		return
 	}
 	// codec gate: the function that switches over the chunk codec returns an error when no supported codec matches
 	checkCodecGate(c)
